@@ -208,6 +208,11 @@ func (d *DHCPv4) SerializeTo(b gopacket.SerializeBuffer, opts gopacket.Serialize
 		return err
 	}
 
+	// The prepended bytes are not zeroed, and the address, name and file fields
+	// and the padding after the options are not filled completely.
+	for i := range data {
+		data[i] = 0
+	}
 	data[0] = byte(d.Operation)
 	data[1] = byte(d.HardwareType)
 	if opts.FixLengths {
